@@ -105,6 +105,10 @@ func TestCheck(t *testing.T) {
 		r.Case("reverse-idle/"+kind, func(c *h.Case) { reverseIdle(c, kind) })
 		r.Case("reverse-stray-results/"+kind, func(c *h.Case) { reverseStray(c, kind) })
 	}
+	for _, kind := range []string{"tcp", "unix", "ws", "udp"} {
+		kind := kind
+		r.Case("answers-racing-with-time-outs/"+kind, func(c *h.Case) { timeoutRace(c, kind) })
+	}
 	r.Case("udp-wrap/sequential", func(c *h.Case) { udpWrap(c, 0) })
 	r.Case("udp-wrap/pending-across-wrap", func(c *h.Case) { udpWrap(c, 3) })
 	r.Case("udp-wrap/real-service", func(c *h.Case) { udpWrapReal(c) })
@@ -770,6 +774,75 @@ func closeProvider(p *reverse.Provider) {
 	case <-done:
 	case <-time.After(5 * time.Second):
 	}
+}
+
+// timeoutRace: callers give up after a short time-out while the scripted peer answers right
+// around that instant, call after call on one connection. A caller gets its own answer or its
+// time-out, and a later call never receives what was meant for a call that gave up.
+func timeoutRace(c *h.Case, kind string) {
+	r := c.R
+	srv, err := peer.StartRaw(kind)
+	if err != nil {
+		r.Inconclusive(err.Error())
+		return
+	}
+	defer srv.Close()
+	client := srv.NewClient()
+	defer client.Abort()
+	const timeout = 8 * time.Millisecond
+	done := make(chan struct{})
+	defer close(done)
+	var seq int64
+	go func() {
+		for {
+			select {
+			case q := <-srv.Reqs:
+				n := atomic.AddInt64(&seq, 1)
+				// answer a little before, at, or a little after the caller's time-out
+				d := timeout + time.Duration(n%9-4)*250*time.Microsecond
+				go func() {
+					time.Sleep(d)
+					srv.Reply(q.Conn, q.Index, answer(q.Body), false)
+				}()
+			case <-done:
+				return
+			}
+		}
+	}()
+	var wg sync.WaitGroup
+	var bad, timeouts, answered int64
+	rounds := r.Pick(60, 400)
+	if light {
+		rounds = 30
+	}
+	for g := 0; g < 8; g++ {
+		wg.Add(1)
+		go func(g int) {
+			defer wg.Done()
+			for i := 0; i < rounds; i++ {
+				body := []byte(fmt.Sprintf("%s-race-g%d-i%d", kind, g, i))
+				ctx, _ := peer.Ctx(client, -1)
+				cctx, cancel := context.WithTimeout(ctx, timeout)
+				resp, err := client.Request(cctx, body)
+				cancel()
+				r.Eval(1)
+				if err != nil {
+					atomic.AddInt64(&timeouts, 1)
+					continue
+				}
+				atomic.AddInt64(&answered, 1)
+				if !bytes.Equal(resp, answer(body)) {
+					if atomic.AddInt64(&bad, 1) <= 5 {
+						c.Violation("response-of-another-call:"+kind+":answers-racing-with-time-outs", fmt.Sprintf("call %q was handed %q", body, clip(resp, 60)), map[string]interface{}{"kind": kind})
+					}
+				}
+			}
+		}(g)
+	}
+	wg.Wait()
+	r.Stat("timeout_race_timeouts:"+kind, timeouts)
+	r.Stat("timeout_race_answered:"+kind, answered)
+	r.Distinct("timeout-race|" + kind)
 }
 
 var _ = sort.Ints
